@@ -37,9 +37,11 @@ func (p *Prog) wholeField(addr ssa.Value) bool {
 
 type execStore struct {
 	Fn    *ssa.Function
-	Store *ssa.Store
+	Store *ssa.Store // nil for a store made through a mutator helper
 	Field *types.Var
 	Recv  ssa.Value
+	At    ssa.Instruction // the store, or the call of the mutator helper
+	Val   ssa.Value       // the value stored (nil when a helper computes it)
 }
 
 func (p *Prog) execStores(fn *ssa.Function) []execStore {
@@ -51,7 +53,140 @@ func (p *Prog) execStores(fn *ssa.Function) []execStore {
 				continue
 			}
 			if f, recv := p.execFieldOf(st.Addr); f != nil {
-				out = append(out, execStore{fn, st, f, recv})
+				out = append(out, execStore{fn, st, f, recv, st, st.Val})
+			}
+		}
+	}
+	return out
+}
+
+// mutatorFields: fn is a plain helper of package exec that does nothing but
+// store into fields of the Executor it is handed (`func (exec *Executor)
+// setBaseObject(obj any, id int) { exec.baseObject = kvBaseObject{…} }`):
+// loop-free, no results, no calls of Executor methods other than such
+// helpers, every call site a plain call from package exec. A call of it
+// counts, in the caller, as a store into those fields. Returns the fields.
+var mutatorMemo = map[*ssa.Function][]*types.Var{}
+
+func (p *Prog) mutatorFields(fn *ssa.Function) []*types.Var {
+	if fn == nil {
+		return nil
+	}
+	if r, ok := mutatorMemo[fn]; ok {
+		return r
+	}
+	mutatorMemo[fn] = nil
+	if fn.Blocks == nil || fnPkgPath(fn) != pkgExec || fn.Parent() != nil || fn.Synthetic != "" || fn.Signature.Results().Len() != 0 || len(fn.Blocks) > 6 || !isMethodOfExecutor(p, fn) {
+		return nil
+	}
+	var recvP *ssa.Parameter
+	for _, q := range fn.Params {
+		if namedOf(q.Type()) == p.A.Executor {
+			recvP = q
+		}
+	}
+	if recvP == nil {
+		return nil
+	}
+	seen := map[*types.Var]bool{}
+	var fields []*types.Var
+	for _, b := range fn.Blocks {
+		for _, pr := range b.Preds {
+			if b.Dominates(pr) {
+				return nil
+			}
+		}
+		for _, ins := range b.Instrs {
+			switch x := ins.(type) {
+			case *ssa.Store:
+				f, recv := p.execFieldOf(x.Addr)
+				if f == nil {
+					if _, local := x.Addr.(*ssa.Alloc); local {
+						continue
+					}
+					if fa, ok := x.Addr.(*ssa.FieldAddr); ok {
+						if _, local := fa.X.(*ssa.Alloc); local {
+							continue
+						}
+					}
+					return nil
+				}
+				if recv != ssa.Value(recvP) {
+					return nil
+				}
+				if !seen[f] {
+					seen[f] = true
+					fields = append(fields, f)
+				}
+			case ssa.CallInstruction:
+				if _, isDefer := x.(*ssa.Defer); isDefer {
+					return nil
+				}
+				if _, isGo := x.(*ssa.Go); isGo {
+					return nil
+				}
+				g := x.Common().StaticCallee()
+				if x.Common().IsInvoke() || g == nil {
+					return nil
+				}
+				if isMethodOfExecutor(p, g) {
+					return nil
+				}
+			case *ssa.MapUpdate, *ssa.Send, *ssa.Panic:
+				return nil
+			}
+		}
+	}
+	if len(fields) == 0 {
+		return nil
+	}
+	n := p.CG.Nodes[fn]
+	if n == nil || len(n.In) == 0 {
+		return nil
+	}
+	for _, e := range n.In {
+		c, ok := e.Site.(*ssa.Call)
+		if !ok || c.Call.StaticCallee() != fn || fnPkgPath(e.Caller.Func) != pkgExec {
+			return nil
+		}
+	}
+	mutatorMemo[fn] = fields
+	return fields
+}
+
+// execStoresV: the stores of fn into Executor fields, those made through
+// mutator helpers included (as the helper's call, with no value).
+func (p *Prog) execStoresV(fn *ssa.Function) []execStore {
+	out := p.execStores(fn)
+	for _, b := range fn.Blocks {
+		for _, ins := range b.Instrs {
+			c, ok := ins.(*ssa.Call)
+			if !ok || c.Call.IsInvoke() {
+				continue
+			}
+			g := c.Call.StaticCallee()
+			fields := p.mutatorFields(g)
+			if len(fields) == 0 {
+				continue
+			}
+			// a setter handed a value: keep the value, so that a call which
+			// restores the field is recognised as one
+			var val ssa.Value
+			if sf, sq := p.fieldSetter(g); sf != nil {
+				for i, q := range g.Params {
+					if q == sq && i < len(c.Call.Args) {
+						val = c.Call.Args[i]
+					}
+				}
+			}
+			var recv ssa.Value
+			for i, q := range g.Params {
+				if namedOf(q.Type()) == p.A.Executor && i < len(c.Call.Args) {
+					recv = c.Call.Args[i]
+				}
+			}
+			for _, f := range fields {
+				out = append(out, execStore{fn, nil, f, recv, c, val})
 			}
 		}
 	}
@@ -111,6 +246,10 @@ func (p *Prog) traceSaved(fn *ssa.Function, v ssa.Value, via ssa.Instruction, de
 					continue
 				}
 				if callee, ok := ci.Common().Value.(*ssa.Function); ok && callee == x.Parent() && pi < len(ci.Common().Args) {
+					return p.traceSaved(par, ci.Common().Args[pi], ins, depth+1)
+				}
+				// … the literal being a closure (it captures the receiver)
+				if mc, ok := ci.Common().Value.(*ssa.MakeClosure); ok && mc.Fn == ssa.Value(x.Parent()) && pi < len(ci.Common().Args) {
 					return p.traceSaved(par, ci.Common().Args[pi], ins, depth+1)
 				}
 			}
@@ -330,7 +469,7 @@ func (p *Prog) classifyState() []stateClass {
 	}
 	sort.Slice(fns, func(i, j int) bool { return fns[i].String() < fns[j].String() })
 	for _, fn := range fns {
-		stores := p.execStores(fn)
+		stores := p.execStoresV(fn)
 		if len(stores) == 0 {
 			continue
 		}
@@ -344,7 +483,7 @@ func (p *Prog) classifyState() []stateClass {
 		}
 		for _, f := range order {
 			ss := byField[f]
-			sc := stateClass{Fn: fn, Field: f, Site: ss[0].Store.Pos()}
+			sc := stateClass{Fn: fn, Field: f, Site: ss[0].At.Pos()}
 			switch {
 			case p.allFreshRecv(fn, ss):
 				sc.Class, sc.OK, sc.Detail = "constructor", true, "the Executor is allocated in this function"
@@ -389,6 +528,8 @@ func (p *Prog) classifyState() []stateClass {
 					} else {
 						sc.Class, sc.Detail = "unclassified", "a setter of the field is called with something other than its saved value ("+bad+")"
 					}
+				} else if mf := p.mutatorFields(fn); len(mf) > 0 {
+					sc.Class, sc.OK, sc.Detail = "mutator-helper", true, fmt.Sprintf("does nothing but store into the field; each of its %d call site(s) is judged as the store it stands for", len(p.CG.Nodes[fn].In))
 				} else if p.isBoundRestorerMethod(fn, f) {
 					sc.Class, sc.OK, sc.Detail = "restorer-method", true, "method of a restorer value: every method value of it is built with the field's saved value"
 				} else {
@@ -443,12 +584,12 @@ func (p *Prog) classifyNamed(fn *ssa.Function, f *types.Var, ss []execStore, ent
 	// counter: f = f + const
 	allCounter := true
 	for _, s := range ss {
-		bo, ok := s.Store.Val.(*ssa.BinOp)
+		bo, ok := s.Val.(*ssa.BinOp)
 		if !ok || bo.Op != token.ADD {
 			allCounter = false
 			break
 		}
-		l, lf := p.traceSaved(fn, bo.X, s.Store, 0)
+		l, lf := p.traceSaved(fn, bo.X, s.At, 0)
 		if _, isC := bo.Y.(*ssa.Const); !isC || l == nil || lf != f {
 			allCounter = false
 		}
@@ -472,7 +613,7 @@ func (p *Prog) classifyNamed(fn *ssa.Function, f *types.Var, ss []execStore, ent
 				for _, b := range fn.Blocks {
 					for _, ins := range b.Instrs {
 						if ci, ok := ins.(ssa.CallInstruction); ok && isMethodOfExecutor(p, ci.Common().StaticCallee()) {
-							if !before(s.Store, ins) {
+							if !before(s.At, ins) {
 								okOrder = false
 							}
 						}
@@ -493,7 +634,7 @@ func (p *Prog) classifyNamed(fn *ssa.Function, f *types.Var, ss []execStore, ent
 				if lf, _ := p.execFieldOf(u.X); lf == f {
 					before1 := true
 					for _, s := range ss {
-						if !before(u, s.Store) {
+						if !before(u, s.At) {
 							before1 = false
 						}
 					}
@@ -583,14 +724,14 @@ func (p *Prog) classifyNamed(fn *ssa.Function, f *types.Var, ss []execStore, ent
 		for _, s := range ss {
 			covered := false
 			for _, d := range defers {
-				if before(d, s.Store) {
+				if before(d, s.At) {
 					covered = true
 					continue
 				}
 				// mutation first, defer right after: same block, no call or
 				// return in between
-				if d.Block() == s.Store.Block() {
-					i, j := instrIndex(d.Block(), s.Store), instrIndex(d.Block(), d)
+				if d.Block() == s.At.Block() {
+					i, j := instrIndex(d.Block(), s.At), instrIndex(d.Block(), d)
 					clean := i < j
 					for k := i + 1; k < j && clean; k++ {
 						switch d.Block().Instrs[k].(type) {
@@ -695,7 +836,7 @@ func calledOnEveryExit(call *ssa.Call) bool {
 func (p *Prog) exitsWithoutRestore(fn *ssa.Function, f *types.Var, ss []execStore, saves []*ssa.UnOp) []string {
 	isMut := map[ssa.Instruction]bool{}
 	for _, s := range ss {
-		isMut[s.Store] = true
+		isMut[s.At] = true
 	}
 	isRestore := func(st *ssa.Store) bool {
 		if sf, _ := p.execFieldOf(st.Addr); sf != f || !p.wholeField(st.Addr) {
@@ -742,8 +883,12 @@ func (p *Prog) exitsWithoutRestore(fn *ssa.Function, f *types.Var, ss []execStor
 						d = true
 					}
 				}
-				if c, ok := ins.(*ssa.Call); ok && p.setterRestores(fn, c, f, isSaveFn) {
-					d = false
+				if c, ok := ins.(*ssa.Call); ok {
+					if p.setterRestores(fn, c, f, isSaveFn) {
+						d = false
+					} else if isMut[c] {
+						d = true
+					}
 				}
 			}
 			if outD[b] != d {
@@ -761,6 +906,12 @@ func (p *Prog) exitsWithoutRestore(fn *ssa.Function, f *types.Var, ss []execStor
 			switch x := ins.(type) {
 			case *ssa.Store:
 				if isRestore(x) {
+					d = false
+				} else if isMut[x] {
+					d = true
+				}
+			case *ssa.Call:
+				if p.setterRestores(fn, x, f, isSaveFn) {
 					d = false
 				} else if isMut[x] {
 					d = true
